@@ -120,6 +120,8 @@ DEFAULTS = {
     ],
     "wrapper_inner": [("FTellTo", "FTell"), ("FAskTo", "FAsk"), ("FBTellTo", "FTell"), ("FBAskTo", "FAsk")],
     "retryable": ["ETimeout"],
+    "exit_waits_for_permits": True,
+    "exit_on_unwind": True,
 }
 
 unparsed = []
@@ -409,6 +411,46 @@ def extract_forwarders(facts):
         unparsed.append("forwarders: %s" % ex)
 
 
+# ------------------------------------------------------------------ exit protocol of the actor task
+def extract_exit(facts):
+    """How the actor task leaves its mailbox (Model/Chan.v, parameter [waits] of cstep):
+    run_actor_lifecycle must await the lifecycle body under catch_unwind, then close the receiver
+    and loop { drain with try_recv; leave when capacity() == max_capacity(); yield }, then resume
+    the panic.  Recognised alternatives: the loop without the permit test, or no shutdown code at
+    all (the tree before the fix) give exit_waits_for_permits = false; anything else is unparsed."""
+    try:
+        src = read("src/actor.rs")
+        body, _ = fn_body(src, "run_actor_lifecycle")
+        if body is None:
+            raise ValueError("run_actor_lifecycle not found")
+        w = re.sub(r"\s+", "", body)
+        if "select!" in w:
+            # the old layout: the whole lifecycle is in this function and the receiver is simply
+            # closed and dropped at its end
+            facts["exit_waits_for_permits"] = False
+            facts["exit_on_unwind"] = False
+            return
+        m = re.match(r"^(?:usefutures::FutureExt;)?letoutcome=(?:std::panic::)?AssertUnwindSafe\(actor_lifecycle_body\("
+                     r"args,actor_ref,&mut(\w+),&mut(\w+),?\)\)\.catch_unwind\(\)\.await;(.*)"
+                     r"matchoutcome\{Ok\((\w+)\)=>\4,Err\((\w+)\)=>(?:std::panic::)?resume_unwind\(\5\),?\}$", w, re.S)
+        if not m:
+            raise ValueError("run_actor_lifecycle is not `catch_unwind(body).await; <shutdown>; match outcome {..}`")
+        rx, mid = m.group(1), m.group(3)
+        facts["exit_on_unwind"] = True
+        R = re.escape(rx)
+        drain = r"while%s\.try_recv\(\)\.is_ok\(\)\{\}" % R
+        test = r"if%s\.capacity\(\)==%s\.max_capacity\(\)\{break;\}" % (R, R)
+        yld = r"tokio::task::yield_now\(\)\.await;"
+        if re.match(r"^%s\.close\(\);loop\{%s%s%s\}$" % (R, drain, test, yld), mid):
+            facts["exit_waits_for_permits"] = True
+        elif re.match(r"^%s\.close\(\);%s$" % (R, drain), mid) or re.match(r"^%s\.close\(\);$" % R, mid) or mid == "":
+            facts["exit_waits_for_permits"] = False
+        else:
+            raise ValueError("shutdown code between catch_unwind and `match outcome` not recognised: %s" % mid[:200])
+    except Exception as ex:  # noqa
+        unparsed.append("exit: %s" % ex)
+
+
 def coq_bool(b):
     return "true" if b else "false"
 
@@ -428,6 +470,8 @@ def emit(facts, path):
     L.append("Definition wrapper_inner : list (fnname * fnname) := [ %s ]." %
              "; ".join("(%s, %s)" % s for s in facts["wrapper_inner"]))
     L.append("Definition retryable : list err := [%s]." % "; ".join(facts["retryable"]))
+    L.append("Definition exit_waits_for_permits : bool := %s." % coq_bool(facts["exit_waits_for_permits"]))
+    L.append("Definition exit_on_unwind : bool := %s." % coq_bool(facts["exit_on_unwind"]))
     L.append("Definition forwarders : list fwd :=\n  [ %s ]." %
              ";\n    ".join("mkFwd %s %s %s %s %s %s" % (t, m, r, tg, coq_bool(v), w) for (t, m, r, tg, v, w) in facts["forwarders"]))
     L.append("Definition conversions : list conv :=\n  [ %s ]." %
@@ -594,6 +638,7 @@ def main():
     extract_caps(facts)
     extract_dead_letters(facts)
     extract_retryable(facts)
+    extract_exit(facts)
     extract_forwarders(facts)
     extract_tracing_gates(facts)
     extract_pins(facts)
